@@ -4,12 +4,12 @@ from gen_util import *
 from srp_cases import *
 import pyref
 
-MODULES = ["WowSrp.Props.C01"]
-THEOREMS = ["C01_case_invariant", "C01_storage_round_trip", "C01_secrets_agree", "C01_public_keys_accepted", "C01_same_padding", "C01_intoProof_panics_iff", "C01_login_exact", "C01_login_agrees", "C01_real_assumptions", "C01_real"]
+MODULES = ["WowSrp.Props.C01", "WowSrp.Props.SourceLayout"]
+THEOREMS = ["C01_case_invariant", "C01_storage_round_trip", "C01_secrets_agree", "C01_public_keys_accepted", "C01_same_padding", "C01_intoProof_panics_iff", "C01_login_exact", "C01_login_agrees", "C01_real_assumptions", "C01_real", "C01_source_no_hidden_state", "source_constants_complete"]
 RULE = ("complete honest exchanges with injected salt, a, b, challenge: credentials of every length 1..16 over the printable "
         "range with random letter-case flips on the client side, with/without storage round trip, special private keys/salts "
         "(tiny, high-order zero bytes, low-order zero bytes, all-ones); sessions whose S has 1 (thorough: 2) low-order zero bytes "
-        "found by search over a; server-side interleave on S with 0..31 low-order zero bytes through v=1,b=1 (S=A). "
+        "found by search over a; client calls under other announced groups interleaved before logins on the same thread (hidden state); server-side interleave on S with 0..31 low-order zero bytes through v=1,b=1 (S=A). "
         "distinct = distinct lines; non-trivial = every exchange (all are complete logins); classes counted in input_distribution")
 EXPLANATION = "agreement theorem over the model for all credentials/salts/keys + differential run + oracle 'both accept, keys equal'"
 ASSUMPTIONS = ["big-integer semantics as in Model/Deps.lean", "SHA-1 abstract in the theorems, real in the runs"]
@@ -67,7 +67,20 @@ def generate(rng, tier):
             chal = rbytes(rng, 16)
             line = "srv.server %s %s %s %s %s | %s%s" % (enc("alice"), le32(1).hex(), salt.hex(), A.hex(), m1.hex(), le32(1).hex(), chal.hex())
             cs.append(Case(line, "server-interleave-S-low-zeros=%d" % zeros, "ok %s %s %s ~48" % (K.hex(), m2.hex(), chal.hex())))
-    return cs
+    # hidden state between calls would break honest logins only after a particular history (e.g. a client that
+    # first talked to a server announcing its own group): interleave such calls with the logins so that every
+    # shard of the run sees standard logins *after* non-standard-group client calls on the same thread
+    inter = []
+    for i, c in enumerate(cs):
+        if i % 40 == 0:
+            g, n_ = rng.randint(2, 255), rand_prime(rng, rng.choice([2, 8, 31, 32]))
+            us, ps, salt, a, B32 = cred(rng), cred(rng), rbytes(rng, 32), rbytes(rng, 32), rbytes(rng, 32)
+            e = client_expect(us, ps, g, n_, B32, salt, a)
+            if e is not None and B32 not in (Z32, N_LE):
+                inter.append(Case("cli.new %s %s %d %s %s %s | %s" % (enc(us), enc(ps), g, le32(n_).hex(), B32.hex(), salt.hex(), a.hex()),
+                                  "history:announced-group-before-login", "ok %s %s ~32" % (e["A32"].hex(), e["M1"].hex())))
+        inter.append(c)
+    return inter
 
 def nontrivial(case, out):
     return case.line
